@@ -138,6 +138,7 @@ func faultScenario() (prefix []Op, targets []faultTarget) {
 
 type faultRun struct {
 	stmts     int
+	lost      string
 	err       error
 	retryErr  error
 	before    string
@@ -170,6 +171,11 @@ func runFaulted(t *testing.T, seed int64, prefix []Op, target Op, mode string, k
 		if k > 0 {
 			if mode == "cancel" {
 				w.Ctl.Arm(0, k, cancel, "op")
+			} else if mode == "cancel-before-commit" {
+				// the request is cancelled after the operation's last statement and before its COMMIT;
+				// database/sql's watcher gets the time to roll the transaction back
+				w.Ctl.Arm(0, 0, nil, "op")
+				w.preCommit = func() { cancel(); time.Sleep(time.Microsecond) }
 			} else {
 				w.Ctl.Arm(k, 0, nil, "op")
 			}
@@ -179,10 +185,12 @@ func runFaulted(t *testing.T, seed int64, prefix []Op, target Op, mode string, k
 		w.faultMode = k > 0
 		res := w.Exec(target)
 		w.faultMode = false
+		w.preCommit = nil
 		fr.stmts = res.NStmts
 		w.Ctl.Arm(0, 0, nil, "")
 		w.Ctx = context.Background()
 		fr.err = res.Err
+		fr.lost = res.Lost
 		if strings.HasPrefix(res.Resp, "E:") && res.Err == nil {
 			fr.err = fmt.Errorf("%s", res.Resp)
 		}
@@ -224,6 +232,64 @@ func runFaulted(t *testing.T, seed int64, prefix []Op, target Op, mode string, k
 	return fr
 }
 
+// streamRequestFaulted: one StreamingPull request carrying acks and nacks, handled by a real
+// MessageStreamer (its reader goroutine), with statement k of that handling failing / the stream's
+// context cancelled at statement k.  Returns the tables before and after, the number of statements
+// the request issued and the error the stream ended with (nil = still open).
+func streamRequestFaulted(t *testing.T, seed int64, prefix []Op, mode string, k int) (before, after string, stmts int, err error) {
+	synctest.Test(t, func(t *testing.T) {
+		w := NewWorld(t, seed)
+		defer w.Close()
+		for _, op := range prefix {
+			w.Exec(op)
+		}
+		w.Dump()
+		ackIDs := []uuid.UUID{w.Resolve(Ref{N: 0, Sub: "c"})}
+		nackIDs := []uuid.UUID{w.Resolve(Ref{N: 0, Sub: "b"}), w.Resolve(Ref{N: 0, Sub: "a"})}
+		var subID uuid.UUID
+		for _, row := range w.lastSubs {
+			if row.Name == SubName("c") {
+				subID = row.ID
+			}
+		}
+		w.Ctl.mu.Lock()
+		w.Ctl.tick = 0
+		w.Ctl.mu.Unlock()
+		ctx, cancel := context.WithCancel(WithLabel(context.Background(), "op"))
+		defer cancel()
+		conn := &scriptConn{reqs: make(chan *actions.MessageStreamRequest), closed: make(chan struct{}), out: map[uuid.UUID]int{}, ctl: w.Ctl}
+		ms := &actions.MessageStreamer{Client: w.Client, SubscriptionID: &subID, SubscriptionName: SubName("c")}
+		fin := make(chan error, 1)
+		go func() { fin <- ms.Go(ctx, conn) }()
+		synctest.Wait()
+		// (the stream's first fetch has refreshed the subscription's expiry: the request starts from here)
+		before = w.Dump()
+		switch {
+		case k > 0 && mode == "cancel":
+			w.Ctl.Arm(0, k, cancel, "op")
+		case k > 0:
+			w.Ctl.Arm(k, 0, nil, "op")
+		default:
+			w.Ctl.Arm(0, 0, nil, "op")
+		}
+		select {
+		case conn.reqs <- &actions.MessageStreamRequest{Ack: ackIDs, Nack: nackIDs}:
+		case err = <-fin:
+		}
+		synctest.Wait()
+		stmts = w.Ctl.Count()
+		w.Ctl.Arm(0, 0, nil, "")
+		select {
+		case err = <-fin:
+		default:
+		}
+		after = w.Dump()
+		cancel()
+		synctest.Wait()
+	})
+	return
+}
+
 func TestC09(t *testing.T) {
 	st := NewStats()
 	defer st.Write()
@@ -233,7 +299,10 @@ func TestC09(t *testing.T) {
 	}
 	defer m.Close()
 	prefix, targets := faultScenario()
-	modes := []string{"fail", "cancel"}
+	// fail: statement k fails; cancel: the request context is cancelled when statement k is issued;
+	// cancel-before-commit: the context is cancelled between the operation's last statement and its
+	// COMMIT (one run per target; operations the harness runs inside its own DoTx closure)
+	modes := []string{"fail", "cancel", "cancel-before-commit"}
 	faulted := 0
 	// scan: every statement index of the target, both fault modes
 	scan := func(seed int64, prefix []Op, tg faultTarget) bool {
@@ -255,10 +324,20 @@ func TestC09(t *testing.T) {
 		st.Count("targets_"+tg.op.K, 1)
 		for _, mode := range modes {
 			for k := 1; k <= clean.stmts; k++ {
+				if mode == "cancel-before-commit" && k > 1 {
+					break
+				}
 				fr1 := runFaulted(t, seed, prefix, tg.op, mode, k, false)
 				faulted++
 				if fr1.stmts < k {
 					continue // the operation issues fewer statements on this path
+				}
+				if mode == "cancel-before-commit" && fr1.err == nil && fr1.canon == clean.canon {
+					continue // not an operation run through the harness's closure: nothing was cancelled
+				}
+				if fr1.err == nil && fr1.lost != "" {
+					violate("no-error", "the operation reported success although its transaction was rolled back: "+fr1.lost, tg, mode, k)
+					return false
 				}
 				if fr1.err == nil {
 					violate("no-error", "the storage failed but the operation reported success", tg, mode, k)
@@ -300,7 +379,38 @@ func TestC09(t *testing.T) {
 		return true
 	}
 	ok := true
+	// a StreamingPull request with acks and nacks is all-or-nothing too (the real streamer's reader)
+	{
+		b0, full, n, err0 := streamRequestFaulted(t, Seed(), prefix, "", 0)
+		if err0 != nil || full == b0 {
+			st.Count("targets_failing_without_fault", 1)
+		} else {
+			st.Count("statements_stream_request", n)
+			for _, mode := range []string{"fail", "cancel"} {
+				for k := 1; k <= n && ok; k++ {
+					before, after, _, err := streamRequestFaulted(t, Seed(), prefix, mode, k)
+					faulted++
+					what := ""
+					switch {
+					case after != before && after != full:
+						what = "a stream request with ack_ids and nack ids that failed half-way left a partial effect: " + dumpDiff(after, before)
+					case after == before && err == nil:
+						what = "the storage failed while the stream handled a request with acks and nacks, nothing was applied, and the stream did not end with an error"
+					}
+					if what != "" {
+						p := writeReplay(fmt.Sprintf("C09-stream-request-%d.json", Seed()), replayFile{Property: "C09", Sig: "stream-partial-effect", Seed: Seed(), Ops: prefix, What: what,
+							Note: fmt.Sprintf("after the operations: a MessageStreamer on subscription c receives one request {ack: [c/0], nack: [b/0, a/0]}; %s at statement %d of its handling", mode, k)})
+						st.Violate(Violation{What: fmt.Sprintf("[stream-partial-effect] %s — %s at statement %d", what, mode, k), Replay: p, FoundInput: true, Sig: "stream-partial-effect"})
+						ok = false
+					}
+				}
+			}
+		}
+	}
 	for _, tg := range targets {
+		if !ok {
+			break
+		}
 		st.Distinct(tg.name)
 		if ok = scan(Seed(), prefix, tg); !ok {
 			break
